@@ -398,6 +398,99 @@ fn est_instance(tx: mpsc::Sender<Value>, seed: u64, flavor: String, exec: String
     let _ = tx.send(json!({"ev":"__done"}));
 }
 
+/// the builder's DEFAULTS for everything a user normally leaves alone (insert buffer size, buffer_items, cleanup interval of
+/// 2 s, internal cost counted): entries whose TTL has elapsed are reclaimed within the bound with them too (C05), the
+/// operations complete and the workers terminate (C20)
+fn dflt_instance(tx: mpsc::Sender<Value>, seed: u64, flavor: String, exec: String) {
+    let mut rng = StdRng::seed_from_u64(seed ^ 0xdf17);
+    let start = 100_000 + rng.gen_range(0..1000u64);
+    let mut now = start;
+    verif::clock::set_virtual(now * MS);
+    drain_callbacks();
+    let threads_before = threads_now();
+    let tasks_before = TASKS_ALIVE.load(Ordering::SeqCst);
+    let max_cost = 100_000i64;
+    let nc = 1000usize;
+    let cache = if flavor == "sync" {
+        let c: SCache = CacheBuilder::new_with_key_builder(nc, max_cost, TabKeys)
+            .set_hasher(crate::cache::S::default())
+            .set_coster(HCoster(CosterKind::Const2))
+            .set_update_validator(HValidator(ValKind::Always))
+            .set_callback(crate::cache::HCallback)
+            .set_metrics(true)
+            .finalize()
+            .expect("finalize");
+        AnyCache::Sync(c)
+    } else {
+        let b = AsyncCacheBuilder::new_with_key_builder(nc, max_cost, TabKeys)
+            .set_hasher(crate::cache::S::default())
+            .set_coster(HCoster(CosterKind::Const2))
+            .set_update_validator(HValidator(ValKind::Always))
+            .set_callback(crate::cache::HCallback)
+            .set_metrics(true);
+        let c: ACache = match exec.as_str() {
+            "pool" => b.finalize(spawn_pool),
+            "local" => b.finalize(spawn_local),
+            _ => b.finalize(spawn_thread),
+        }
+        .expect("finalize");
+        AnyCache::Async(c)
+    };
+    let api = Api(cache);
+    let _ = tx.send(json!({"ev":"FInit","flavor":flavor,"exec":exec,"kind":"defaults","max":max_cost,"now":now}));
+    let mut accepted: Vec<u64> = Vec::new();
+    let cleared: Vec<u64> = Vec::new();
+    let mut cbs: Vec<Value> = Vec::new();
+    let snap = |api: &Api, now: u64, ticked: bool, accepted: &Vec<u64>, cbs: &mut Vec<Value>, what: &str| {
+        cbs.extend(drain_callbacks());
+        let p = post(&api.0);
+        let _ = tx.send(json!({"ev":"Snap","what":what,"now":now,"ticked":ticked,"due_now":now,"sequentialBelow":false,
+            "store":p["store"],"em":p["em"],"costs":p["costs"],"used":p["used"],"max":p["max"],"len":p["len"],"met":p["met"],
+            "accepted":accepted,"cleared":cleared,"cbs":cbs.clone(),"lookups":0}));
+    };
+    let _ = tx.send(json!({"ev":"Op","completed":true,"begin":true,"what":"defaults"}));
+    let mut v = 0u64;
+    for (k, ttl) in [(2u64, 300u64), (3, 1000), (4, 0), (5, 1700), (6, 2500), (7, 0)] {
+        v += 1;
+        if api.insert(k, v, rng.gen_range(1..4), ttl) {
+            accepted.push(v);
+        }
+    }
+    api.wait();
+    snap(&api, now, false, &accepted, &mut cbs, "inserted");
+    // the clock passes some of the deadlines; two default cleanup intervals of real time go by, under light traffic
+    now += [1100u64, 1800, 2600][rng.gen_range(0..3)];
+    verif::clock::set_virtual(now * MS);
+    let t0 = Instant::now();
+    while t0.elapsed() < Duration::from_millis(4600) {
+        v += 1;
+        if api.insert(8, v, 1, 3_600_000) {
+            accepted.push(v);
+        }
+        std::thread::sleep(Duration::from_millis(200));
+    }
+    api.wait();
+    snap(&api, now, true, &accepted, &mut cbs, "advance+traffic (default cleanup interval)");
+    let _ = tx.send(json!({"ev":"Op","completed":true,"begin":true,"what":"close/drop"}));
+    api.close();
+    let t0 = Instant::now();
+    let mut left;
+    loop {
+        left = if flavor == "sync" {
+            threads_now().saturating_sub(threads_before)
+        } else {
+            TASKS_ALIVE.load(Ordering::SeqCst).saturating_sub(tasks_before)
+        };
+        if left == 0 || t0.elapsed() > Duration::from_secs(5) {
+            break;
+        }
+        std::thread::sleep(Duration::from_millis(5));
+    }
+    drop(api);
+    let _ = tx.send(json!({"ev":"Closed","workers_left":left}));
+    let _ = tx.send(json!({"ev":"__done"}));
+}
+
 /// PARALLEL clients, nothing scheduled: (1) several threads write one resident key through a logging validator -- the verdict and
 /// the replacement are one critical section, so the logged calls must form a chain (C09); (2) several threads look up a
 /// resident and an absent key -- every lookup is exactly one hit or one miss (C17); (3) close() while other threads keep
@@ -491,7 +584,9 @@ fn par_instance(tx: mpsc::Sender<Value>, seed: u64, flavor: String, exec: String
     if let Some(k) = resident_key {
         let _ = tx.send(json!({"ev":"Op","completed":true,"begin":true,"what":"parallel lookups"}));
         let absent = 7u64;
-        let m0 = post(&api.0)["met"].clone();
+        let p0 = post(&api.0);
+        let m0 = p0["met"].clone();
+        let ring0 = p0["ring"].as_i64().unwrap_or(0);
         let readers = 8u64;
         let per = 20_000u64;
         let hs: Vec<_> = (0..readers)
@@ -512,9 +607,12 @@ fn par_instance(tx: mpsc::Sender<Value>, seed: u64, flavor: String, exec: String
         for h in hs {
             found += h.join().unwrap_or(0);
         }
-        let m1 = post(&api.0)["met"].clone();
+        let p1 = post(&api.0);
+        let m1 = p1["met"].clone();
         let d = |n: &str| m1[n].as_i64().unwrap_or(0) - m0[n].as_i64().unwrap_or(0);
-        let _ = tx.send(json!({"ev":"Hammer","lookups":readers * per,"found":found,"hit":d("hit"),"miss":d("miss")}));
+        // every lookup is still in the lookup ring or was handed over in a batch that is counted as kept or as dropped
+        let _ = tx.send(json!({"ev":"Hammer","lookups":readers * per,"found":found,"hit":d("hit"),"miss":d("miss"),
+            "kept":d("keepGets"),"dropped":d("dropGets"),"ring_before":ring0,"ring_after":p1["ring"]}));
     }
     // (3) close() under load
     let _ = tx.send(json!({"ev":"Op","completed":true,"begin":true,"what":"close under load"}));
@@ -607,6 +705,9 @@ pub fn run(o: &Opts) -> i32 {
             }
             "par" => {
                 std::thread::spawn(move || par_instance(tx, seed * 1000 + j, f, e));
+            }
+            "dflt" => {
+                std::thread::spawn(move || dflt_instance(tx, seed * 1000 + j, f, e));
             }
             k => {
                 let (tiny, drop_only) = (k == "tiny", k == "drop");
